@@ -204,7 +204,16 @@ pub fn install_panic_hook() {
             .location()
             .map(|l| format!("{}:{}", l.file(), l.line()))
             .unwrap_or_default();
-        if GUARD_DEPTH.with(|d| d.get()) == 0 {
+        if msg.contains("unsafe precondition(s) violated") || msg.contains("cannot unwind") || msg.contains("non-unwinding") {
+            // a non-unwinding panic (e.g. std's "unsafe precondition(s) violated"
+            // check, compiled in because debug assertions are on) aborts the
+            // process: leave a note saying which run was executing
+            let (seed, index) = CURRENT_RUN.with(|c| c.get());
+            if let (Some(f), Some(p)) = (DEATH_FILE.get(), DEATH_PROP.get()) {
+                let _ = std::fs::write(f, format!("{} {} {}\n", p, seed, index));
+            }
+            eprintln!("ABORTING PANIC in run {}: {} @ {}", index, msg, loc);
+        } else if GUARD_DEPTH.with(|d| d.get()) == 0 {
             eprintln!("HARNESS PANIC: {} @ {}", msg, loc);
         }
         LAST_PANIC.with(|p| *p.borrow_mut() = Some(format!("{} @ {}", msg, loc)));
